@@ -128,6 +128,10 @@ def gen(ctx):
             out.append((form, f"{{k1: {A}, a: {B}, k1x: {Cc}}}", doc, [A, B, Cc]))
         elif form == "not":
             out.append((form, f"!({A})", doc, [A]))
+            if rng.random() < 0.3:
+                # a repeated key (also spelled differently): the members are evaluated in order and a later one replaces an earlier one —
+                # the specification is silent, so this form is compared with the model of the code only
+                out.append(("mhashdup", rng.choice(["{k1: %s, a: %s, k1: %s}", "{k: %s, \"k\": %s, k: %s}", "{a: %s, a: %s, b: %s}"]) % (A, B, Cc), doc, []))
         elif form == "and":
             out.append((form, f"({A}) && ({B})", doc, [A, B]))
         else:
